@@ -38,7 +38,7 @@ class Hole:
     def __init__(self, kind, kw): self.kind, self.kw = kind, kw
 
 def gen_val(rng, depth, p_unsafe, p_bad, dyn=True):
-    kw = {'safe': False} if rng.random() < p_unsafe else {}
+    kw = {'safe': False} if rng.random() < p_unsafe else ({'safe': True} if rng.random() < p_unsafe * 0.3 else {})
     r = rng.random()
     if dyn and r < 0.20:
         return Hole('xref', kw)
